@@ -159,6 +159,8 @@ def gen_history(rng, n_max=14, overdraw_pct=0, method=None, accounts=None, earn_
             fee = 0 if fee_style < 4 else min(sent, rng.choice([1, 1000, U // 1000, max(1, sent // 50)]))
             if fee_style == 9:
                 fee = min(sent, 1)
+            if fee_style == 8 and rng.chance(35):
+                fee = sent          # nothing arrives: the whole amount is the fee (crypto_received = 0 is a valid transfer)
             recv = sent - fee
             row = {"ts": ts, "from_exch": acct[0], "from_holder": acct[1], "to_exch": to[0], "to_holder": to[1],
                    "spot": rng.choice(PRICES), "crypto_sent": sent, "crypto_received": recv}
